@@ -491,6 +491,19 @@ class IMAPClient:
 
     ####################################################################
     #
+    async def skip_octets(self, count: int) -> None:
+        """
+        Read and discard `count` octets from the IMAP client, never holding
+        more than `stream_buffer_size` of them at a time.
+        """
+        while count > 0:
+            data = await self.reader.read(min(count, self.stream_buffer_size))
+            if not data:
+                raise asyncio.IncompleteReadError(b"", count)
+            count -= len(data)
+
+    ####################################################################
+    #
     async def start(self) -> None:
         """
         Entry point for the asyncio task for handling the network
@@ -552,10 +565,17 @@ class IMAPClient:
                         )
                         self.ibuffer = []
                         self.ibuffer_size = 0
-                        # Drain the line terminator that follows the
-                        # literal declaration so we stay in sync.
+                        # The line terminator that follows the literal
+                        # declaration has already been read. A
+                        # synchronizing literal is only sent after our
+                        # continuation request, so what the client sends
+                        # next is a new command. A non-synchronizing
+                        # literal (LITERAL+) is already on its way: skip
+                        # exactly that many octets so we stay in sync and
+                        # never take them for commands.
                         #
-                        await self.reader.readuntil(self.LINE_TERMINATOR)
+                        if m.group(2):
+                            await self.skip_octets(literal_str_length)
                         continue
 
                     # If this is a synchronizing string literal (does not have
